@@ -80,6 +80,7 @@ class Built:
         self.space_size = None
         self.catalog_paths = set()
         self.probe = []       # per-op accounting probe (optional)
+        self.reopen_points = ()
 
 
 def probe_of(iso):
@@ -101,6 +102,7 @@ def build(cfg, ops, sizes, reopen_points=(), new_kwargs=None, schedule=None, wan
     ('force' | 'get_record' | 'walk' | 'list' | 'write')."""
     b = Built()
     b.cfg, b.ops = cfg, ops
+    b.reopen_points = tuple(reopen_points)
     iso = cfg.new(**(new_kwargs or {}))
     try:
         for i, op in enumerate(ops + [None]):
